@@ -4,6 +4,8 @@ in or out of range).  Core Lean only. -/
 import RtcModel.C15Rtcp
 import RtcModel.Lemmas.C15Bytes
 import RtcModel.Lemmas.C15Nack
+import RtcModel.Lemmas.C15Consts
+import RtcModel.Lemmas.C15Utf8
 
 namespace RtcModel.C15
 open RtcModel.Generated
@@ -37,14 +39,14 @@ theorem parseCompound_writeRtcp (fmt pt : Nat) (body rest : Bytes) (hf : fmt < 3
   have hB := padded_length_mod body
   have hBl := padded_length_le body
   generalize hBd : padded body = B at hB hBl
-  have hw : writeRtcp fmt pt body = u8 (c15RtpVersion * 64 + fmt % 32) :: u8 pt :: (be16n ((B.length + 4) / 4 - 1) ++ B) := by
-    simp [writeRtcp, ← hBd, padded]
+  have hw : writeRtcp fmt pt body = u8 (c15RtpVersion * 64 + fmt % 32) :: u8 pt :: (be16n (B.length / 4) ++ B) := by
+    simp [writeRtcp, c15RtcpCountMask_eq, ← hBd, padded]
   rw [hw]
   simp only [be16n, List.cons_append, List.nil_append]
   rw [parseCompound]
   have hv : (u8 (c15RtpVersion * 64 + fmt % 32)).toNat = 128 + fmt := by
     rw [u8_toNat, c15RtpVersion_val]; omega
-  have hl : (rd16 (u8 (((B.length + 4) / 4 - 1) / 256 % 256)) (u8 (((B.length + 4) / 4 - 1) % 256))).toNat * 4 = B.length := by
+  have hl : (rd16 (u8 (B.length / 4 / 256 % 256)) (u8 (B.length / 4 % 256))).toNat * 4 = B.length := by
     rw [rd16_be16n]; omega
   have hptn : (u8 pt).toNat = pt := u8_toNat_lt hpt
   rw [if_neg (by rw [hv, c15RtpVersion_val]; omega)]
@@ -76,7 +78,7 @@ theorem parseCompound_twccWire (body rest : Bytes) (hlen : body.length + 3 < 262
         | .ok ps => .ok (match o with | some p => p :: ps | none => ps) := by
   have hfmt : c15FmtTwcc < 32 := by rw [c15FmtTwcc_val]; omega
   have hptv : c15RtcpRtpfb < 256 := by rw [c15RtcpRtpfb_val]; omega
-  unfold twccWire
+  unfold twccWire twccPadded
   by_cases hp : pad4 body.length = 0
   · simp only [hp, if_true]
     rw [parseCompound_writeRtcp _ _ body rest hfmt hptv hlen]
@@ -90,14 +92,14 @@ theorem parseCompound_twccWire (body rest : Bytes) (hlen : body.length + 3 < 262
     have hBl : B.length = body.length + k := by rw [← hBd]; simp; omega
     have hB4 : B.length % 4 = 0 := by omega
     have hw : writeRtcp c15FmtTwcc c15RtcpRtpfb B =
-        u8 (c15RtpVersion * 64 + c15FmtTwcc % 32) :: u8 c15RtcpRtpfb :: (be16n ((B.length + 4) / 4 - 1) ++ B) := by
-      simp [writeRtcp, pad4_zero hB4]
+        u8 (c15RtpVersion * 64 + c15FmtTwcc % 32) :: u8 c15RtcpRtpfb :: (be16n (B.length / 4) ++ B) := by
+      simp [writeRtcp, c15RtcpCountMask_eq, pad4_zero hB4]
     rw [hw]
     simp only [be16n, List.cons_append, List.nil_append]
     rw [parseCompound]
     have hv : (u8 (c15RtpVersion * 64 + c15FmtTwcc % 32) ||| 0x20).toNat = 175 := by
       simp [c15RtpVersion_val, c15FmtTwcc_val, u8]
-    have hl : (rd16 (u8 (((B.length + 4) / 4 - 1) / 256 % 256)) (u8 (((B.length + 4) / 4 - 1) % 256))).toNat * 4 = B.length := by
+    have hl : (rd16 (u8 (B.length / 4 / 256 % 256)) (u8 (B.length / 4 % 256))).toNat * 4 = B.length := by
       rw [rd16_be16n]; omega
     have hptn : (u8 c15RtcpRtpfb).toNat = c15RtcpRtpfb := u8_toNat_lt hptv
     rw [if_neg (by rw [hv, c15RtpVersion_val]; omega)]
@@ -134,6 +136,8 @@ theorem parseCompound_twccWire (body rest : Bytes) (hlen : body.length + 3 < 262
 /-- RFC 3550 saturation of the cumulative loss count to 24-bit signed -/
 def clampLost (l : Int) : Int := if l < -8388608 then -8388608 else if l > 8388607 then 8388607 else l
 
+theorem lossLim_eq : lossLim = 8388608 := by simp [lossLim, c15LossClampBits_eq]
+
 def canonBlock (b : ReportBlock) : ReportBlock := { b with lost := clampLost b.lost }
 
 theorem canonBlock_of_range {b : ReportBlock} (h1 : -8388608 ≤ b.lost) (h2 : b.lost ≤ 8388607) : canonBlock b = b := by
@@ -146,7 +150,7 @@ theorem canonBlock_of_range {b : ReportBlock} (h1 : -8388608 ≤ b.lost) (h2 : b
 theorem parseBlock_blockBytes (b : ReportBlock) (rest : Bytes) :
     parseBlock (blockBytes b ++ rest) = some (canonBlock b) := by
   obtain ⟨ssrc, fl, lost, hseq, jit, lsr, dlsr⟩ := b
-  simp only [blockBytes, be32, be24n, List.cons_append, List.nil_append, parseBlock, rd32_be32, rd24n_be24n,
+  simp only [blockBytes, lossLim_eq, be32, be24n, List.cons_append, List.nil_append, parseBlock, rd32_be32, rd24n_be24n,
     canonBlock, clampLost, Option.some.injEq, ReportBlock.mk.injEq, true_and, and_true]
   split <;> split <;> (try split) <;> omega
 
@@ -333,7 +337,7 @@ theorem parseRemb_body (s : UInt32) (br : Nat) (ss : List UInt32) (hbr : br < 2 
   obtain ⟨m, e⟩ := me
   simp only at hn
   have hm : m % 4294967296 = m := Nat.mod_eq_of_lt (by omega)
-  simp only [rembBody, hme, hm, be32, rembTag, List.cons_append, List.nil_append, parseRemb, rd32_be32,
+  simp only [rembBody, c15RembExpMask_eq, hme, hm, be32, rembTag, List.cons_append, List.nil_append, parseRemb, rd32_be32,
     ne_eq, not_true_eq_false, if_false, u8_toNat]
   have hx : ((e % 64 * 4 % 256 + m / 65536 % 4) % 256) / 4 = e := by omega
   have hmm : ((e % 64 * 4 % 256 + m / 65536 % 4) % 256) % 4 * 65536 + m / 256 % 256 % 256 * 256 + m % 256 % 256 = m := by omega
@@ -360,10 +364,22 @@ theorem parseTwcc_body (s m : UInt32) (b c : UInt16) (r : UInt32) (f : UInt8) (p
 
 /-! ### BYE -/
 
-/-- the reason a BYE written for `reason` decodes to: cut at 255 bytes, then `from_utf8_lossy` -/
+theorem byeCut_le (r : Bytes) : ∀ n, byeCut r n ≤ n := by
+  intro n
+  induction n with
+  | zero => simp [byeCut]
+  | succ n ih => simp only [byeCut]; split <;> omega
+
+theorem byeCut_full (r : Bytes) : byeCut r r.length = r.length := by
+  cases h : r.length with
+  | zero => rfl
+  | succ n => simp [byeCut, isBoundary, h]
+
+/-- the reason a BYE written for `reason` decodes to: the longest prefix of at most 255 bytes that ends
+on a character boundary, read with `from_utf8_lossy` -/
 def byeCanonReason : Option Bytes → Option Bytes
   | none => none
-  | some r => some (lossy (r.take (min r.length c15ByeMaxReason)))
+  | some r => some (lossy (r.take (byeCut r (min r.length c15ByeMaxReason))))
 
 theorem parseBye_body (ss : List UInt32) (reason : Option Bytes) (z : Bytes) (hz : reason = none → z = []) :
     parseBye ss.length (byeBody ss reason ++ z) = .ok (.bye ss (byeCanonReason reason)) := by
@@ -374,11 +390,14 @@ theorem parseBye_body (ss : List UInt32) (reason : Option Bytes) (z : Bytes) (hz
   | none => simp [hz rfl, byeCanonReason]
   | some r =>
     simp only [List.cons_append, byeCanonReason]
-    have hn : (u8 (min r.length c15ByeMaxReason)).toNat = min r.length c15ByeMaxReason := by
-      apply u8_toNat_lt; rw [c15ByeMaxReason_val]; omega
-    rw [hn, if_neg (by simp [List.length_take])]
+    have hle := byeCut_le r (min r.length c15ByeMaxReason)
+    have h255 := c15ByeMaxReason_eq
+    generalize byeCut r (min r.length c15ByeMaxReason) = k at hle
+    have hk : k ≤ r.length := by omega
+    have hn : (u8 k).toNat = k := by apply u8_toNat_lt; omega
+    rw [hn, if_neg (by simp [List.length_take]; omega)]
     congr 3
-    rw [List.take_append_of_le_length (by simp [List.length_take])]
+    rw [List.take_append_of_le_length (by simp [List.length_take]; omega)]
     simp [List.take_take]
 
 /-! ### SDES -/
@@ -503,29 +522,22 @@ theorem sdesBody_length_mod (cs : List SdesChunk) : (sdesBody [] cs).length % 4 
 /-! ### one packet: parse ∘ marshal in canonical form -/
 
 /-- What `marshal_rtcp_packets` followed by `parse_rtcp_packets` does to a logical packet — for every
-value the marshaller accepts, in or out of the property's ranges: the loss count saturates at 24-bit
-signed, a BYE reason is cut at 255 bytes (then read lossily), a NACK list comes back as the packed
-pairs enumerate it, a REMB bitrate is rounded down to 18 significant bits, the TWCC reference time is
-taken modulo 2^24 (its opaque payload is preserved for every length since the RTCP-padding `fix:`). -/
+value the marshaller accepts: the loss count saturates at 24-bit signed (RFC 3550 §6.4.1), a BYE reason
+is cut to whole characters within 255 bytes, a NACK list comes back as the packed pairs enumerate it, a
+REMB bitrate keeps its 18 most significant bits; every other field of every type is preserved. -/
 def canon : Rtcp → Rtcp
   | .sr s m l t p o bl => .sr s m l t p o (bl.map canonBlock)
   | .rr s bl => .rr s (bl.map canonBlock)
-  | .sdes cs => .sdes cs
   | .bye ss r => .bye ss (byeCanonReason r)
-  | .pli s m => .pli s m
-  | .fir s rq => .fir s rq
   | .nack s m lost => .nack s m (unpackNack (packNack lost))
   | .remb s br ss => .remb s (rembCanon br) ss
-  | .twcc s m b c r f pl => .twcc s m b c (UInt32.ofNat (r.toNat % 16777216)) f pl
+  | p => p
 
-/-- Domain of the canonical-form law: what the Rust types guarantee (`u64` bitrate, `String` = valid
-UTF-8), SDES item type ≠ END, and bodies that fit the 16-bit RTCP length field. -/
+/-- What the Rust types guarantee about a logical packet: `String`s are valid UTF-8 (RFC 3629 syntax,
+`utf8Valid`) and the REMB bitrate is a `u64`. Nothing else is assumed. -/
 def Dom : Rtcp → Prop
-  | .sdes cs => (∀ c ∈ cs, ∀ i ∈ c.items, i.ty ≠ 0 ∧ lossy i.text = i.text) ∧ (sdesBody [] cs).length + 3 < 262144
-  | .fir _ rq => rq.length ≤ 30000
-  | .nack _ _ lost => lost.length ≤ 60000
+  | .sdes cs => ∀ c ∈ cs, ∀ i ∈ c.items, utf8Valid i.text = true
   | .remb _ br _ => br < 2 ^ 64
-  | .twcc _ _ _ _ _ _ pl => pl.length ≤ 200000
   | _ => True
 
 theorem parseOne_sr (fmt : Nat) (b : Bytes) : parseOne c15RtcpSr fmt b = (parseSr fmt b).map some := by
@@ -564,17 +576,75 @@ theorem readsAs_of (fmt pt : Nat) (body rest : Bytes) (q : Rtcp) (hf : fmt < 32)
   unfold ReadsAs
   rw [parseCompound_writeRtcp fmt pt body rest hf hpt hlen, hp]
 
-theorem sdesTextTooLong_false {cs : List SdesChunk} (h : sdesTextTooLong cs = false) :
-    ∀ c ∈ cs, ∀ i ∈ c.items, i.text.length ≤ 255 := by
-  intro c hc i hi
-  rcases Nat.lt_or_ge 255 i.text.length with hgt | hle
-  · have : sdesTextTooLong cs = true := by
-      simp only [sdesTextTooLong, List.any_eq_true, decide_eq_true_eq]
-      exact ⟨c, hc, i, hi, hgt⟩
-    rw [h] at this; cases this
-  · exact hle
+theorem emit_ok {f p : Nat} {b bs : Bytes} (h : emit f p b = .ok bs) : fits b = true ∧ bs = writeRtcp f p b := by
+  unfold emit at h
+  cases hf : fits b with
+  | true => rw [hf] at h; simp only [if_true] at h; injection h with h; exact ⟨rfl, h.symm⟩
+  | false => rw [hf] at h; simp at h
 
-/-- **every** packet the marshaller accepts (inside `Dom`) is read back as its canonical form -/
+theorem fits_len {b : Bytes} (h : fits b = true) : b.length + 3 < 262144 := by
+  have := pad4_aligned b.length
+  simp only [fits, decide_eq_true_eq] at h
+  omega
+
+theorem fits_of_len {b : Bytes} (h : b.length ≤ 262140) : fits b = true := by
+  have := pad4_aligned b.length
+  have := pad4_lt b.length
+  simp only [fits, decide_eq_true_eq]
+  omega
+
+theorem emit_of_fits {f p : Nat} {b : Bytes} (h : fits b = true) : emit f p b = .ok (writeRtcp f p b) := by
+  simp [emit, h]
+
+theorem itemsErr_none {is : List SdesItem} (h : itemsErr is = none) : ∀ i ∈ is, i.ty ≠ 0 ∧ i.text.length ≤ 255 := by
+  induction is with
+  | nil => intro i hi; cases hi
+  | cons x xs ih =>
+    simp only [itemsErr] at h
+    by_cases h0 : x.ty = 0
+    · rw [if_pos h0] at h; cases h
+    · rw [if_neg h0] at h
+      by_cases hl : x.text.length > 255
+      · rw [if_pos hl] at h; cases h
+      · rw [if_neg hl] at h
+        intro i hi
+        rcases List.mem_cons.mp hi with rfl | hi
+        · exact ⟨h0, by omega⟩
+        · exact ih h i hi
+
+theorem sdesItemErr_none {cs : List SdesChunk} (h : sdesItemErr cs = none) :
+    ∀ c ∈ cs, ∀ i ∈ c.items, i.ty ≠ 0 ∧ i.text.length ≤ 255 := by
+  induction cs with
+  | nil => intro c hc; cases hc
+  | cons x xs ih =>
+    simp only [sdesItemErr] at h
+    cases hx : itemsErr x.items with
+    | some e => rw [hx] at h; cases h
+    | none =>
+      rw [hx] at h
+      intro c hc
+      rcases List.mem_cons.mp hc with rfl | hc
+      · exact itemsErr_none hx
+      · exact ih h c hc
+
+theorem itemsErr_of_ok {is : List SdesItem} (h : ∀ i ∈ is, i.ty ≠ 0 ∧ i.text.length ≤ 255) : itemsErr is = none := by
+  induction is with
+  | nil => rfl
+  | cons x xs ih =>
+    have hx := h x (List.mem_cons_self ..)
+    simp only [itemsErr]
+    rw [if_neg hx.1, if_neg (by omega)]
+    exact ih (fun i hi => h i (List.mem_cons_of_mem _ hi))
+
+theorem sdesItemErr_of_ok {cs : List SdesChunk} (h : ∀ c ∈ cs, ∀ i ∈ c.items, i.ty ≠ 0 ∧ i.text.length ≤ 255) :
+    sdesItemErr cs = none := by
+  induction cs with
+  | nil => rfl
+  | cons x xs ih =>
+    simp only [sdesItemErr, itemsErr_of_ok (h x (List.mem_cons_self ..))]
+    exact ih (fun c hc => h c (List.mem_cons_of_mem _ hc))
+
+/-- **every** packet the marshaller accepts is read back as its canonical form -/
 theorem parse_marshalOne (p : Rtcp) (hd : Dom p) (bs : Bytes) (hm : marshalOne p = .ok bs) (rest : Bytes) :
     ReadsAs bs rest (canon p) := by
   have hSr : c15RtcpSr < 256 := by rw [c15RtcpSr_val]; omega
@@ -590,56 +660,51 @@ theorem parse_marshalOne (p : Rtcp) (hd : Dom p) (bs : Bytes) (hm : marshalOne p
     by_cases hc : bl.length > c15RtcpMaxCount
     · rw [if_pos hc] at hm; cases hm
     · rw [if_neg hc] at hm
-      injection hm with hm; subst hm
+      obtain ⟨hfit, rfl⟩ := emit_ok hm
       have hl : (be32 s ++ be32 m ++ be32 l ++ be32 t ++ be32 pc ++ be32 oc ++ bl.flatMap blockBytes).length = 24 + 24 * bl.length := by
         simp only [List.length_append, be32_length, flatMap_blockBytes_length]
       have hmod : bl.length % 256 = bl.length := by omega
       rw [hmod]
-      apply readsAs_of _ _ _ _ _ (by omega) hSr (by omega)
+      apply readsAs_of _ _ _ _ _ (by omega) hSr (fits_len hfit)
       rw [padded_of_aligned (by omega), parseOne_sr, parseSr_body]; rfl
   | rr s bl =>
     simp only [marshalOne] at hm
     by_cases hc : bl.length > c15RtcpMaxCount
     · rw [if_pos hc] at hm; cases hm
     · rw [if_neg hc] at hm
-      injection hm with hm; subst hm
+      obtain ⟨hfit, rfl⟩ := emit_ok hm
       have hl : (be32 s ++ bl.flatMap blockBytes).length = 4 + 24 * bl.length := by
         simp only [List.length_append, be32_length, flatMap_blockBytes_length]
       have hmod : bl.length % 256 = bl.length := by omega
       rw [hmod]
-      apply readsAs_of _ _ _ _ _ (by omega) hRr (by omega)
+      apply readsAs_of _ _ _ _ _ (by omega) hRr (fits_len hfit)
       rw [padded_of_aligned (by omega), parseOne_rr, parseRr_body]; rfl
   | sdes cs =>
     simp only [marshalOne] at hm
     by_cases hc : cs.length > c15RtcpMaxCount
     · rw [if_pos hc] at hm; cases hm
     · rw [if_neg hc] at hm
-      cases htl : sdesTextTooLong cs with
-      | true => simp [htl] at hm
-      | false =>
-        simp only [htl, Bool.false_eq_true, if_false] at hm
-        injection hm with hm; subst hm
+      cases hie : sdesItemErr cs with
+      | some e => rw [hie] at hm; cases hm
+      | none =>
+        rw [hie] at hm
+        obtain ⟨hfit, rfl⟩ := emit_ok hm
         have hmod : cs.length % 256 = cs.length := by omega
         rw [hmod]
-        obtain ⟨hit, hsz⟩ := hd
-        have hok : ∀ c ∈ cs, ∀ i ∈ c.items, ItemOk i := fun c hc i hi =>
-          ⟨(hit c hc i hi).1, sdesTextTooLong_false htl c hc i hi, (hit c hc i hi).2⟩
-        apply readsAs_of _ _ _ _ _ (by omega) hSd hsz
+        have hi := sdesItemErr_none hie
+        have hok : ∀ c ∈ cs, ∀ i ∈ c.items, ItemOk i := fun c hc i hi' =>
+          ⟨(hi c hc i hi').1, (hi c hc i hi').2, lossy_of_valid _ _ rfl (hd c hc i hi')⟩
+        apply readsAs_of _ _ _ _ _ (by omega) hSd (fits_len hfit)
         rw [padded_of_aligned (sdesBody_length_mod cs), parseOne_sdes, parseSdes_body cs hok]; rfl
   | bye ss r =>
     simp only [marshalOne] at hm
     by_cases hc : ss.length > c15RtcpMaxCount
     · rw [if_pos hc] at hm; cases hm
     · rw [if_neg hc] at hm
-      injection hm with hm; subst hm
+      obtain ⟨hfit, rfl⟩ := emit_ok hm
       have hmod : ss.length % 256 = ss.length := by omega
       rw [hmod]
-      have hbl : (byeBody ss r).length ≤ 4 * ss.length + 256 := by
-        have h255 : c15ByeMaxReason = 255 := c15ByeMaxReason_val
-        cases r with
-        | none => simp only [byeBody, List.length_append, be32s_length, List.length_nil]; omega
-        | some x => simp only [byeBody, List.length_append, be32s_length, List.length_cons, List.length_take]; omega
-      apply readsAs_of _ _ _ _ _ (by omega) hBy (by omega)
+      apply readsAs_of _ _ _ _ _ (by omega) hBy (fits_len hfit)
       rw [parseOne_bye, padded, parseBye_body ss r _ ?_]; rfl
       intro hr; subst hr
       have : (byeBody ss none).length % 4 = 0 := by
@@ -647,16 +712,15 @@ theorem parse_marshalOne (p : Rtcp) (hd : Dom p) (bs : Bytes) (hm : marshalOne p
       rw [pad4_zero this]; rfl
   | pli s m =>
     simp only [marshalOne] at hm
-    injection hm with hm; subst hm
-    apply readsAs_of _ _ _ _ _ (by rw [c15FmtPli_val]; omega) hPs (by simp)
+    obtain ⟨hfit, rfl⟩ := emit_ok hm
+    apply readsAs_of _ _ _ _ _ (by rw [c15FmtPli_val]; omega) hPs (fits_len hfit)
     rw [parseOne_pli, padded, parsePli_body]; rfl
   | fir s rq =>
     simp only [marshalOne] at hm
-    injection hm with hm; subst hm
+    obtain ⟨hfit, rfl⟩ := emit_ok hm
     have hl : (firBody s rq).length = 8 + 8 * rq.length := by
       rw [firBody_eq]; simp only [List.length_append, be32_length, flatMap_firEnc_length]
-    have hd' : rq.length ≤ 30000 := hd
-    apply readsAs_of _ _ _ _ _ (by rw [c15FmtFir_val]; omega) hPs (by omega)
+    apply readsAs_of _ _ _ _ _ (by rw [c15FmtFir_val]; omega) hPs (fits_len hfit)
     rw [padded_of_aligned (by omega), parseOne_fir, parseFir_body]; rfl
   | nack s m lost =>
     simp only [marshalOne] at hm
@@ -664,35 +728,49 @@ theorem parse_marshalOne (p : Rtcp) (hd : Dom p) (bs : Bytes) (hm : marshalOne p
     | true => simp [he] at hm
     | false =>
       simp only [he, Bool.false_eq_true, if_false] at hm
-      injection hm with hm; subst hm
-      have hd' : lost.length ≤ 60000 := hd
-      have hpl := packNack_length_le lost
+      obtain ⟨hfit, rfl⟩ := emit_ok hm
       have hl : (be32 s ++ be32 m ++ (packNack lost).flatMap pairBytes).length = 8 + 4 * (packNack lost).length := by
         simp only [List.length_append, be32_length, flatMap_pairBytes_length]
-      apply readsAs_of _ _ _ _ _ (by rw [c15FmtNack_val]; omega) hFb (by omega)
+      apply readsAs_of _ _ _ _ _ (by rw [c15FmtNack_val]; omega) hFb (fits_len hfit)
       rw [padded_of_aligned (by omega), parseOne_nack, parseNack_body]; rfl
   | remb s br ss =>
     simp only [marshalOne] at hm
     by_cases hc : ss.length > c15RembMaxSsrcs
     · rw [if_pos hc] at hm; cases hm
     · rw [if_neg hc] at hm
-      injection hm with hm; subst hm
+      obtain ⟨hfit, rfl⟩ := emit_ok hm
       have h255 : c15RembMaxSsrcs = 255 := c15RembMaxSsrcs_val
       have hl : (rembBody s br ss).length = 16 + 4 * ss.length := by
         simp only [rembBody, rembTag, List.length_append, be32_length, be32s_length, List.length_cons, List.length_nil]
-      apply readsAs_of _ _ _ _ _ (by rw [c15FmtApp_val]; omega) hPs (by omega)
+      apply readsAs_of _ _ _ _ _ (by rw [c15FmtApp_val]; omega) hPs (fits_len hfit)
       rw [padded_of_aligned (by omega), parseOne_remb, parseRemb_body s br ss hd (by omega)]; rfl
   | twcc s m b c r f pl =>
     simp only [marshalOne] at hm
-    injection hm with hm; subst hm
-    have hd' : pl.length ≤ 200000 := hd
-    have hl : (twccBody s m b c r f pl).length = 16 + pl.length := by
-      simp [twccBody]; omega
-    unfold ReadsAs
-    rw [parseCompound_twccWire _ _ (by omega), parseOne_twcc]
-    have := parseTwcc_body s m b c r f pl []
-    simp only [List.append_nil] at this
-    rw [this]; rfl
+    by_cases hr : r.toNat > 16777215
+    · rw [if_pos hr] at hm; cases hm
+    · rw [if_neg hr] at hm
+      unfold twccEmit at hm
+      cases hf : fits (twccPadded (twccBody s m b c r f pl)) with
+      | false => rw [hf] at hm; simp at hm
+      | true =>
+        rw [hf] at hm; simp only [if_true] at hm
+        injection hm with hm; subst hm
+        have hlen : (twccBody s m b c r f pl).length + 3 < 262144 := by
+          have h1 := fits_len hf
+          have h2 : (twccBody s m b c r f pl).length ≤ (twccPadded (twccBody s m b c r f pl)).length := by
+            unfold twccPadded
+            by_cases hz : pad4 (twccBody s m b c r f pl).length = 0
+            · simp [hz]
+            · simp [hz]
+          omega
+        unfold ReadsAs
+        rw [parseCompound_twccWire _ _ hlen, parseOne_twcc]
+        have := parseTwcc_body s m b c r f pl []
+        simp only [List.append_nil] at this
+        rw [this]
+        have hrr : UInt32.ofNat (r.toNat % 16777216) = r := by
+          rw [Nat.mod_eq_of_lt (by omega)]; simp
+        rw [hrr]; rfl
 
 end RtcModel.C15
 
@@ -704,20 +782,22 @@ open RtcModel.Generated
 def BlocksOk (bl : List ReportBlock) : Prop :=
   bl.length ≤ 31 ∧ ∀ b ∈ bl, -8388608 ≤ b.lost ∧ b.lost ≤ 8388607
 
-/-- The field ranges of the property, per RTCP type (explicit and decidable). For a NACK the list has
-to be in the order the wire enumerates it (e.g. ascending without duplicates); the *set* law
-`nack_pack_set` needs no such condition. -/
+/-- The field ranges of the property, per RTCP type — explicit, decidable, and no fixed-point
+conditions: text is RFC 3629-valid UTF-8 (`utf8Valid`), a REMB bitrate is an 18-bit mantissa times a
+power of two, a NACK list is strictly ascending (the order the wire enumerates it; the *set* law
+`nack_pack_set` needs no condition at all). The last conjunct of SDES / FIR / TWCC says the body fits
+the 16-bit RTCP length field (beyond it the marshaller returns an error). -/
 def Rtcp.WF : Rtcp → Prop
   | .sr _ _ _ _ _ _ bl => BlocksOk bl
   | .rr _ bl => BlocksOk bl
-  | .sdes cs => cs.length ≤ 31 ∧ (∀ c ∈ cs, ∀ i ∈ c.items, i.ty ≠ 0 ∧ i.text.length ≤ 255 ∧ lossy i.text = i.text) ∧
-      (sdesBody [] cs).length + 3 < 262144
-  | .bye ss r => ss.length ≤ 31 ∧ ∀ x, r = some x → x.length ≤ 255 ∧ lossy x = x
+  | .sdes cs => cs.length ≤ 31 ∧ (∀ c ∈ cs, ∀ i ∈ c.items, i.ty ≠ 0 ∧ i.text.length ≤ 255 ∧ utf8Valid i.text = true) ∧
+      fits (sdesBody [] cs) = true
+  | .bye ss r => ss.length ≤ 31 ∧ ∀ x, r = some x → x.length ≤ 255 ∧ utf8Valid x = true
   | .pli _ _ => True
-  | .fir _ rq => rq.length ≤ 30000
-  | .nack _ _ lost => lost ≠ [] ∧ lost.length ≤ 60000 ∧ unpackNack (packNack lost) = lost
-  | .remb _ br ss => ss.length ≤ 255 ∧ br < 2 ^ 64 ∧ rembCanon br = br
-  | .twcc _ _ _ _ r _ pl => r.toNat < 16777216 ∧ pl.length ≤ 200000
+  | .fir _ rq => rq.length ≤ 32766
+  | .nack _ _ lost => lost ≠ [] ∧ Asc lost
+  | .remb _ br ss => ss.length ≤ 255 ∧ br < 2 ^ 64 ∧ ∃ m e, m < 2 ^ 18 ∧ br = m * 2 ^ e
+  | .twcc _ _ _ _ r _ pl => r.toNat < 16777216 ∧ pl.length ≤ 262124
 
 theorem map_canonBlock_of_ok {bl : List ReportBlock} (h : BlocksOk bl) : bl.map canonBlock = bl := by
   have : ∀ b ∈ bl, canonBlock b = b := fun b hb => canonBlock_of_range (h.2 b hb).1 (h.2 b hb).2
@@ -730,70 +810,14 @@ theorem map_canonBlock_of_ok {bl : List ReportBlock} (h : BlocksOk bl) : bl.map 
 
 theorem dom_of_wf {p : Rtcp} (w : p.WF) : Dom p := by
   cases p with
-  | sdes cs => exact ⟨fun c hc i hi => ⟨(w.2.1 c hc i hi).1, (w.2.1 c hc i hi).2.2⟩, w.2.2⟩
-  | fir s rq => exact w
-  | nack s m lost => exact w.2.1
+  | sdes cs => exact fun c hc i hi => (w.2.1 c hc i hi).2.2
   | remb s br ss => exact w.2.1
-  | twcc s m b c r f pl => exact w.2
   | _ => trivial
 
-theorem canon_of_wf {p : Rtcp} (w : p.WF) : canon p = p := by
-  cases p with
-  | sr s m l t pc oc bl => simp only [canon, map_canonBlock_of_ok w]
-  | rr s bl => simp only [canon, map_canonBlock_of_ok w]
-  | sdes cs => rfl
-  | bye ss r =>
-    cases r with
-    | none => rfl
-    | some x =>
-      have := w.2 x rfl
-      simp only [canon, byeCanonReason, c15ByeMaxReason_val]
-      rw [Nat.min_eq_left this.1, List.take_length, this.2]
-  | pli s m => rfl
-  | fir s rq => rfl
-  | nack s m lost => simp only [canon, w.2.2]
-  | remb s br ss => simp only [canon, w.2.2]
-  | twcc s m b c r f pl =>
-    obtain ⟨hr, _⟩ := w
-    simp only [canon, Nat.mod_eq_of_lt hr, UInt32.ofNat_toNat]
+end RtcModel.C15
 
-theorem sdesTextTooLong_of_ok {cs : List SdesChunk} (h : ∀ c ∈ cs, ∀ i ∈ c.items, i.text.length ≤ 255) :
-    sdesTextTooLong cs = false := by
-  cases hh : sdesTextTooLong cs with
-  | false => rfl
-  | true =>
-    simp only [sdesTextTooLong, List.any_eq_true, decide_eq_true_eq] at hh
-    obtain ⟨c, hc, i, hi, hgt⟩ := hh
-    have := h c hc i hi; omega
-
-theorem marshalOne_ok_of_wf {p : Rtcp} (w : p.WF) : ∃ bs, marshalOne p = .ok bs := by
-  have hMax : c15RtcpMaxCount = 31 := c15RtcpMaxCount_val
-  cases p with
-  | sr s m l t pc oc bl =>
-    have : ¬ bl.length > c15RtcpMaxCount := by have := w.1; omega
-    exact ⟨_, by simp only [marshalOne]; rw [if_neg this]⟩
-  | rr s bl =>
-    have : ¬ bl.length > c15RtcpMaxCount := by have := w.1; omega
-    exact ⟨_, by simp only [marshalOne]; rw [if_neg this]⟩
-  | sdes cs =>
-    have h1 : ¬ cs.length > c15RtcpMaxCount := by have := w.1; omega
-    have h2 := sdesTextTooLong_of_ok (fun c hc i hi => (w.2.1 c hc i hi).2.1)
-    exact ⟨_, by simp only [marshalOne]; rw [if_neg h1, h2]; rfl⟩
-  | bye ss r =>
-    have : ¬ ss.length > c15RtcpMaxCount := by have := w.1; omega
-    exact ⟨_, by simp only [marshalOne]; rw [if_neg this]⟩
-  | pli s m => exact ⟨_, rfl⟩
-  | fir s rq => exact ⟨_, rfl⟩
-  | nack s m lost =>
-    have : lost.isEmpty = false := by
-      cases lost with
-      | nil => exact absurd rfl w.1
-      | cons _ _ => rfl
-    exact ⟨_, by simp only [marshalOne, this]; rfl⟩
-  | remb s br ss =>
-    have : ¬ ss.length > c15RembMaxSsrcs := by have := w.1; rw [c15RembMaxSsrcs_val]; omega
-    exact ⟨_, by simp only [marshalOne]; rw [if_neg this]⟩
-  | twcc s m b c r f pl => exact ⟨_, rfl⟩
+namespace RtcModel.C15
+open RtcModel.Generated
 
 /-! ### REMB: every value the wire can carry is a fixed point -/
 
@@ -845,5 +869,253 @@ theorem rembCanon_wire (m e : Nat) (hm : m ≤ 262143) (hv : m * 2 ^ e < 2 ^ 64)
     simp only [Nat.sub_zero] at h1
     unfold rembCanon
     rw [h1, Nat.mod_eq_of_lt hv]
+
+/-- the normalisation rounds down -/
+theorem rembNorm_le : ∀ (fuel m e0 : Nat),
+    (rembNorm fuel m e0).1 * 2 ^ ((rembNorm fuel m e0).2 - e0) ≤ m ∧ e0 ≤ (rembNorm fuel m e0).2 := by
+  intro fuel
+  induction fuel with
+  | zero => intro m e0; simp [rembNorm]
+  | succ f ih =>
+    intro m e0
+    simp only [rembNorm]
+    by_cases hgt : m > c15RembMantissaMax
+    · rw [if_pos hgt]
+      obtain ⟨h1, h2⟩ := ih (m / 2) (e0 + 1)
+      refine ⟨?_, by omega⟩
+      have : (rembNorm f (m / 2) (e0 + 1)).2 - e0 = ((rembNorm f (m / 2) (e0 + 1)).2 - (e0 + 1)) + 1 := by omega
+      rw [this, Nat.pow_succ, ← Nat.mul_assoc]
+      have : (rembNorm f (m / 2) (e0 + 1)).1 * 2 ^ ((rembNorm f (m / 2) (e0 + 1)).2 - (e0 + 1)) * 2 ≤ m / 2 * 2 :=
+        Nat.mul_le_mul_right 2 h1
+      omega
+    · rw [if_neg hgt]; simp
+
+/-- **the REMB range, from both sides**: a `u64` bitrate survives the mantissa/exponent encoding exactly
+when it is an 18-bit mantissa times a power of two -/
+theorem rembCanon_fixed_iff (br : Nat) (hb : br < 2 ^ 64) :
+    rembCanon br = br ↔ ∃ m e, m < 2 ^ 18 ∧ br = m * 2 ^ e := by
+  constructor
+  · intro h
+    have hn := rembNorm_spec 64 46 br 0 (by simpa using hb) (by omega)
+    have hl := (rembNorm_le 64 br 0).1
+    simp only [Nat.sub_zero] at hl
+    unfold rembCanon at h
+    rw [Nat.mod_eq_of_lt (by omega)] at h
+    exact ⟨_, _, by have := hn.1; omega, h.symm⟩
+  · rintro ⟨m, e, hm, rfl⟩
+    exact rembCanon_wire m e (by omega) hb
+
+/-! ### inside the ranges: marshal succeeds and the canonical form is the packet itself -/
+
+theorem canon_of_wf {p : Rtcp} (w : p.WF) : canon p = p := by
+  cases p with
+  | sr s m l t pc oc bl => simp only [canon, map_canonBlock_of_ok w]
+  | rr s bl => simp only [canon, map_canonBlock_of_ok w]
+  | sdes cs => rfl
+  | bye ss r =>
+    cases r with
+    | none => rfl
+    | some x =>
+      have := w.2 x rfl
+      simp only [canon, byeCanonReason, c15ByeMaxReason_eq]
+      rw [Nat.min_eq_left this.1, byeCut_full, List.take_length, lossy_of_valid _ _ rfl this.2]
+  | pli s m => rfl
+  | fir s rq => rfl
+  | nack s m lost => simp only [canon, unpack_pack_asc lost w.2]
+  | remb s br ss =>
+    obtain ⟨_, hb, m, e, hm, rfl⟩ := w
+    simp only [canon, rembCanon_wire m e (by omega) hb]
+  | twcc s m b c r f pl => rfl
+
+theorem marshalOne_ok_of_wf {p : Rtcp} (w : p.WF) : ∃ bs, marshalOne p = .ok bs := by
+  have hMax : c15RtcpMaxCount = 31 := c15RtcpMaxCount_val
+  cases p with
+  | sr s m l t pc oc bl =>
+    have hc : ¬ bl.length > c15RtcpMaxCount := by have := w.1; omega
+    have hf : fits (be32 s ++ be32 m ++ be32 l ++ be32 t ++ be32 pc ++ be32 oc ++ bl.flatMap blockBytes) = true := by
+      apply fits_of_len
+      have := w.1
+      simp only [List.length_append, be32_length, flatMap_blockBytes_length]; omega
+    exact ⟨_, by simp only [marshalOne]; rw [if_neg hc, emit_of_fits hf]⟩
+  | rr s bl =>
+    have hc : ¬ bl.length > c15RtcpMaxCount := by have := w.1; omega
+    have hf : fits (be32 s ++ bl.flatMap blockBytes) = true := by
+      apply fits_of_len
+      have := w.1
+      simp only [List.length_append, be32_length, flatMap_blockBytes_length]; omega
+    exact ⟨_, by simp only [marshalOne]; rw [if_neg hc, emit_of_fits hf]⟩
+  | sdes cs =>
+    have h1 : ¬ cs.length > c15RtcpMaxCount := by have := w.1; omega
+    have h2 := sdesItemErr_of_ok (fun c hc i hi => ⟨(w.2.1 c hc i hi).1, (w.2.1 c hc i hi).2.1⟩)
+    exact ⟨_, by simp only [marshalOne]; rw [if_neg h1, h2]; simp only; rw [emit_of_fits w.2.2]⟩
+  | bye ss r =>
+    have hc : ¬ ss.length > c15RtcpMaxCount := by have := w.1; omega
+    have hf : fits (byeBody ss r) = true := by
+      apply fits_of_len
+      have := w.1
+      have h255 := c15ByeMaxReason_eq
+      cases r with
+      | none => simp only [byeBody, List.length_append, be32s_length, List.length_nil]; omega
+      | some x =>
+        have := byeCut_le x (min x.length c15ByeMaxReason)
+        simp only [byeBody, List.length_append, be32s_length, List.length_cons, List.length_take]; omega
+    exact ⟨_, by simp only [marshalOne]; rw [if_neg hc, emit_of_fits hf]⟩
+  | pli s m =>
+    exact ⟨_, by simp only [marshalOne]; rw [emit_of_fits (fits_of_len (by simp))]⟩
+  | fir s rq =>
+    have hf : fits (firBody s rq) = true := by
+      apply fits_of_len
+      have : rq.length ≤ 32766 := w
+      rw [firBody_eq]; simp only [List.length_append, be32_length, flatMap_firEnc_length]; omega
+    exact ⟨_, by simp only [marshalOne]; rw [emit_of_fits hf]⟩
+  | nack s m lost =>
+    have he : lost.isEmpty = false := by
+      cases lost with
+      | nil => exact absurd rfl w.1
+      | cons _ _ => rfl
+    have hf : fits (be32 s ++ be32 m ++ (packNack lost).flatMap pairBytes) = true := by
+      apply fits_of_len
+      have := packNack_count lost
+      simp only [List.length_append, be32_length, flatMap_pairBytes_length]; omega
+    exact ⟨_, by simp only [marshalOne, he, Bool.false_eq_true, if_false]; rw [emit_of_fits hf]⟩
+  | remb s br ss =>
+    have hc : ¬ ss.length > c15RembMaxSsrcs := by have := w.1; rw [c15RembMaxSsrcs_val]; omega
+    have hf : fits (rembBody s br ss) = true := by
+      apply fits_of_len
+      have := w.1
+      simp only [rembBody, rembTag, List.length_append, be32_length, be32s_length, List.length_cons, List.length_nil]; omega
+    exact ⟨_, by simp only [marshalOne]; rw [if_neg hc, emit_of_fits hf]⟩
+  | twcc s m b c r f pl =>
+    obtain ⟨hr, hp⟩ := w
+    have hl : (twccBody s m b c r f pl).length = 16 + pl.length := by simp [twccBody]; omega
+    have hf : fits (twccPadded (twccBody s m b c r f pl)) = true := by
+      apply fits_of_len
+      have h3 := pad4_lt (twccBody s m b c r f pl).length
+      have h4 := pad4_aligned (twccBody s m b c r f pl).length
+      unfold twccPadded
+      by_cases hz : pad4 (twccBody s m b c r f pl).length = 0
+      · simp only [hz, if_true]; omega
+      · simp only [hz, if_false, List.length_append, List.length_replicate, List.length_cons, List.length_nil]; omega
+    exact ⟨_, by simp only [marshalOne, twccEmit]; rw [if_neg (by omega), hf]; rfl⟩
+
+/-! ### exactly which logical packets the marshaller accepts -/
+
+/-- The wire can carry the packet: every count fits its 5- or 8-bit field, every SDES item has a type other
+than END and at most 255 bytes of text, the TWCC reference time fits 24 bits, a NACK names at least one
+packet, and the body fits the 16-bit length field. (Values that fit but are lossy on the wire — loss counts,
+BYE reasons, REMB bitrates — are accepted and canonicalised, see `canon`.) -/
+def Encodable : Rtcp → Prop
+  | .sr _ _ _ _ _ _ bl => bl.length ≤ 31
+  | .rr _ bl => bl.length ≤ 31
+  | .sdes cs => cs.length ≤ 31 ∧ (∀ c ∈ cs, ∀ i ∈ c.items, i.ty ≠ 0 ∧ i.text.length ≤ 255) ∧ fits (sdesBody [] cs) = true
+  | .bye ss _ => ss.length ≤ 31
+  | .pli _ _ => True
+  | .fir _ rq => rq.length ≤ 32766
+  | .nack _ _ lost => lost ≠ []
+  | .remb _ _ ss => ss.length ≤ 255
+  | .twcc _ _ _ _ r _ pl => r.toNat < 16777216 ∧ pl.length ≤ 262124
+
+theorem emit_isOk {f p : Nat} {b : Bytes} : (∃ bs, emit f p b = .ok bs) ↔ fits b = true := by
+  constructor
+  · rintro ⟨bs, h⟩; exact (emit_ok h).1
+  · intro h; exact ⟨_, emit_of_fits h⟩
+
+theorem fits_iff_len (b : Bytes) : fits b = true ↔ b.length ≤ 262140 := by
+  constructor
+  · intro h; have := fits_len h; have := pad4_aligned b.length
+    simp only [fits, decide_eq_true_eq] at h; omega
+  · exact fits_of_len
+
+theorem marshalOne_ok_iff (p : Rtcp) : (∃ bs, marshalOne p = .ok bs) ↔ Encodable p := by
+  have hMax := c15RtcpMaxCount_eq
+  have h255 := c15RembMaxSsrcs_eq
+  have hbye := c15ByeMaxReason_eq
+  cases p with
+  | sr s m l t pc oc bl =>
+    simp only [marshalOne, Encodable]
+    by_cases hc : bl.length > c15RtcpMaxCount
+    · rw [if_pos hc]; exact ⟨(fun ⟨_, h⟩ => by cases h), fun h => by omega⟩
+    · rw [if_neg hc, emit_isOk]
+      refine ⟨fun _ => by omega, fun _ => fits_of_len ?_⟩
+      simp only [List.length_append, be32_length, flatMap_blockBytes_length]; omega
+  | rr s bl =>
+    simp only [marshalOne, Encodable]
+    by_cases hc : bl.length > c15RtcpMaxCount
+    · rw [if_pos hc]; exact ⟨(fun ⟨_, h⟩ => by cases h), fun h => by omega⟩
+    · rw [if_neg hc, emit_isOk]
+      refine ⟨fun _ => by omega, fun _ => fits_of_len ?_⟩
+      simp only [List.length_append, be32_length, flatMap_blockBytes_length]; omega
+  | sdes cs =>
+    simp only [marshalOne, Encodable]
+    by_cases hc : cs.length > c15RtcpMaxCount
+    · rw [if_pos hc]; exact ⟨(fun ⟨_, h⟩ => by cases h), fun h => by omega⟩
+    · rw [if_neg hc]
+      cases hie : sdesItemErr cs with
+      | some e =>
+        simp only
+        refine ⟨(fun ⟨_, h⟩ => by cases h), fun h => ?_⟩
+        rw [sdesItemErr_of_ok h.2.1] at hie; cases hie
+      | none =>
+        simp only
+        rw [emit_isOk]
+        exact ⟨fun h => ⟨by omega, sdesItemErr_none hie, h⟩, fun h => h.2.2⟩
+  | bye ss r =>
+    simp only [marshalOne, Encodable]
+    by_cases hc : ss.length > c15RtcpMaxCount
+    · rw [if_pos hc]; exact ⟨(fun ⟨_, h⟩ => by cases h), fun h => by omega⟩
+    · rw [if_neg hc, emit_isOk]
+      refine ⟨fun _ => by omega, fun _ => fits_of_len ?_⟩
+      cases r with
+      | none => simp only [byeBody, List.length_append, be32s_length, List.length_nil]; omega
+      | some x =>
+        have := byeCut_le x (min x.length c15ByeMaxReason)
+        simp only [byeBody, List.length_append, be32s_length, List.length_cons, List.length_take]; omega
+  | pli s m =>
+    simp only [marshalOne, Encodable, emit_isOk, iff_true]
+    exact fits_of_len (by simp)
+  | fir s rq =>
+    simp only [marshalOne, Encodable, emit_isOk, fits_iff_len]
+    rw [firBody_eq]; simp only [List.length_append, be32_length, flatMap_firEnc_length]; omega
+  | nack s m lost =>
+    simp only [marshalOne, Encodable]
+    cases lost with
+    | nil => simp
+    | cons a as =>
+      simp only [List.isEmpty_cons, Bool.false_eq_true, if_false, emit_isOk, ne_eq, reduceCtorEq, not_false_eq_true, iff_true]
+      apply fits_of_len
+      have := packNack_count (a :: as)
+      simp only [List.length_append, be32_length, flatMap_pairBytes_length]; omega
+  | remb s br ss =>
+    simp only [marshalOne, Encodable]
+    by_cases hc : ss.length > c15RembMaxSsrcs
+    · rw [if_pos hc]; exact ⟨(fun ⟨_, h⟩ => by cases h), fun h => by omega⟩
+    · rw [if_neg hc, emit_isOk]
+      refine ⟨fun _ => by omega, fun _ => fits_of_len ?_⟩
+      simp only [rembBody, rembTag, List.length_append, be32_length, be32s_length, List.length_cons, List.length_nil]; omega
+  | twcc s m b c r f pl =>
+    simp only [marshalOne, Encodable]
+    have hl : (twccBody s m b c r f pl).length = 16 + pl.length := by simp [twccBody]; omega
+    by_cases hr : r.toNat > 16777215
+    · rw [if_pos hr]; exact ⟨(fun ⟨_, h⟩ => by cases h), fun h => by omega⟩
+    · rw [if_neg hr]
+      have hpl : (twccPadded (twccBody s m b c r f pl)).length = 16 + pl.length + pad4 (16 + pl.length) := by
+        have hlt := pad4_lt (16 + pl.length)
+        unfold twccPadded
+        rw [hl]
+        by_cases hz : pad4 (16 + pl.length) = 0
+        · simp only [hz, if_true, hl, Nat.add_zero]
+        · simp only [hz, if_false, List.length_append, List.length_replicate, List.length_cons, List.length_nil, hl]
+          omega
+      have h3 := pad4_lt (16 + pl.length)
+      have h4 := pad4_aligned (16 + pl.length)
+      unfold twccEmit
+      constructor
+      · rintro ⟨bs, h⟩
+        cases hf : fits (twccPadded (twccBody s m b c r f pl)) with
+        | false => rw [hf] at h; simp at h
+        | true => rw [fits_iff_len, hpl] at hf; exact ⟨by omega, by omega⟩
+      · rintro ⟨_, hp⟩
+        have hf : fits (twccPadded (twccBody s m b c r f pl)) = true := by rw [fits_iff_len, hpl]; omega
+        exact ⟨_, by rw [hf]; rfl⟩
 
 end RtcModel.C15
